@@ -444,6 +444,21 @@ pub open spec fn subgraph_outcome<T: Eq + PartialOrd + Send + Sync, A: Clone>(g:
     &&& nfne_rel(Seq::new(kn.len(), |k: int| node_names_of(g.nodes_vec@)[kn[k]]), Seq::new(ke.len(), |k: int| g.all_edges_seq()[ke[k]]), g.specs, r)
 }
 
+pub open spec fn spec_reweighted<T: PartialOrd + Send, A>(e: Edge<T, A>, w: f64) -> Edge<T, A> {
+    Edge { u: e.u, v: e.v, attributes: e.attributes, weight: w }
+}
+// what set_all_edge_weights(w) builds: new_from_nodes_and_edges over the same nodes and every edge of get_all_edges() with weight w
+pub open spec fn reweight_outcome<T: Eq + PartialOrd + Send + Sync, A: Clone>(g: Graph<T, A>, w: f64, r: Result<Graph<T, A>, Error>) -> bool {
+    nfne_rel(node_names_of(g.nodes_vec@), Seq::new(g.all_edges_seq().len(), |i: int| spec_reweighted(g.all_edges_seq()[i], w)), g.specs, r)
+}
+
+// what to_single_edges() builds: the same nodes, one collapsed edge per key of the name-keyed store (`keys` = the keys in iteration order)
+pub open spec fn collapse_outcome<T: Eq + PartialOrd + Send + Sync, A: Clone>(g: Graph<T, A>, keys: Seq<(T, T)>, r: Result<Graph<T, A>, Error>) -> bool {
+    &&& keys.no_duplicates() && (forall|k: (T, T)| g.edges@.contains_key(k) <==> #[trigger] keys.contains(k))
+    &&& nfne_rel(node_names_of(g.nodes_vec@), Seq::new(keys.len(), |i: int| collapsed_edge(keys[i], g.edges@[keys[i]]@)),
+                 GraphSpecs { multi_edges: false, ..g.specs }, r)
+}
+
 // what reverse() returns: a graph rebuilt (new_from_nodes_and_edges) from the same nodes and every edge flipped
 pub open spec fn reverse_outcome<T: Eq + PartialOrd + Send + Sync, A: Clone>(g: Graph<T, A>, r: Result<Graph<T, A>, Error>) -> bool {
     nfne_rel(node_names_of(g.nodes_vec@), Seq::new(g.all_edges_seq().len(), |i: int| spec_reversed(g.all_edges_seq()[i])), g.specs, r)
